@@ -4,6 +4,7 @@ package main
 // and the type-resolved anchor lookups every rule uses (DESIGN §2, §2.1).
 
 import (
+	_ "embed"
 	"fmt"
 	"go/token"
 	"go/types"
@@ -36,6 +37,7 @@ type Ctx struct {
 
 	unresolved []string // anchors that could not be resolved
 	pure       map[*ssa.Function]int8
+	sites      map[*ssa.Function][]ssa.CallInstruction
 	stats      struct {
 		packages, functions, blocks, instrs int
 	}
@@ -126,6 +128,7 @@ func Load(dir, arch string) (*Ctx, error) {
 			c.stats.instrs += len(b.Instrs)
 		}
 	}
+	theCtx = c
 	return c, nil
 }
 
@@ -170,6 +173,9 @@ func (c *Ctx) InScope(fn *ssa.Function) bool {
 func (c *Ctx) ModFuncs(pkgs ...string) []*ssa.Function {
 	var r []*ssa.Function
 	for _, fn := range c.modFuncs {
+		if c.IsNew(fn) {
+			continue // new helpers are seen through the groups of their callers (GB)
+		}
 		p := pkgPathOf(fn)
 		for _, s := range pkgs {
 			if p == full(s) {
@@ -446,4 +452,190 @@ func fieldOfField(f *ssa.Field) *types.Var {
 		return nil
 	}
 	return st.Field(f.Field)
+}
+
+// ---- reference function table ----
+//
+// knownfuncs.txt lists every function of the module on the reference tree (the tree the
+// rules were written against). A function of the module that is NOT in the table is a
+// helper introduced by a later edit; rules treat such functions as transparent: the path
+// walker steps into them (PATH inlining) and scanning rules attribute their instructions
+// to the functions that call them. This keeps "extract a block into a helper" from
+// looking like a deleted check.
+
+//go:embed knownfuncs.txt
+var knownFuncsTxt string
+
+var knownFuncs = func() map[string]bool {
+	m := map[string]bool{}
+	for _, l := range strings.Split(knownFuncsTxt, "\n") {
+		if l = strings.TrimSpace(l); l != "" {
+			m[l] = true
+		}
+	}
+	return m
+}()
+
+// IsNew: fn is a module function with a body that does not exist on the reference tree.
+func (c *Ctx) IsNew(fn *ssa.Function) bool {
+	if fn == nil || fn.Blocks == nil || fn.Synthetic != "" || !c.InModule(fn) {
+		return false
+	}
+	return !knownFuncs[FnName(fn)]
+}
+
+// Group returns fn followed by the new helper functions it reaches through static calls
+// (transitively, helpers only).
+func (c *Ctx) Group(fn *ssa.Function) []*ssa.Function {
+	if fn == nil {
+		return nil
+	}
+	out := []*ssa.Function{fn}
+	seen := map[*ssa.Function]bool{fn: true}
+	for i := 0; i < len(out); i++ {
+		for _, b := range out[i].Blocks {
+			for _, ins := range b.Instrs {
+				ci, ok := ins.(ssa.CallInstruction)
+				if !ok {
+					continue
+				}
+				if cal := ci.Common().StaticCallee(); cal != nil && !seen[cal] && c.IsNew(cal) {
+					seen[cal] = true
+					out = append(out, cal)
+				}
+			}
+		}
+	}
+	return out
+}
+
+// theCtx is the context of the current analysis (one Load per process at a time); free
+// helper functions (stripConv, roles) use it to look through new helper functions.
+var theCtx *Ctx
+
+// GB returns the basic blocks of fn followed by those of the new helpers of its group.
+func (c *Ctx) GB(fn *ssa.Function) []*ssa.BasicBlock {
+	if fn == nil {
+		return nil
+	}
+	g := c.Group(fn)
+	if len(g) == 1 {
+		return fn.Blocks
+	}
+	var out []*ssa.BasicBlock
+	for _, f := range g {
+		out = append(out, f.Blocks...)
+	}
+	return out
+}
+
+// callSites returns the static call instructions of fn in the module.
+func (c *Ctx) callSites(fn *ssa.Function) []ssa.CallInstruction {
+	if c.sites == nil {
+		c.sites = map[*ssa.Function][]ssa.CallInstruction{}
+		for _, f := range c.modFuncs {
+			for _, b := range f.Blocks {
+				for _, ins := range b.Instrs {
+					if ci, ok := ins.(ssa.CallInstruction); ok {
+						if cal := ci.Common().StaticCallee(); cal != nil {
+							c.sites[cal] = append(c.sites[cal], ci)
+						}
+					}
+				}
+			}
+		}
+	}
+	return c.sites[fn]
+}
+
+// Dom: block a dominates block b, looking through new helper functions: a block of a
+// helper is dominated by whatever dominates all its call sites; a block of a helper
+// dominates what the blocks of its call sites dominate when it dominates every return of
+// the helper.
+func (c *Ctx) Dom(a, b *ssa.BasicBlock) bool { return c.dom(a, b, 0) }
+
+func (c *Ctx) dom(a, b *ssa.BasicBlock, depth int) bool {
+	if a.Parent() == b.Parent() {
+		return a.Dominates(b)
+	}
+	if depth > 4 {
+		return false
+	}
+	if c.IsNew(b.Parent()) {
+		sites := c.callSites(b.Parent())
+		if len(sites) == 0 {
+			return false
+		}
+		for _, s := range sites {
+			if !c.dom(a, s.Block(), depth+1) {
+				return false
+			}
+		}
+		return true
+	}
+	if c.IsNew(a.Parent()) {
+		// a must dominate every return of its function; then it dominates what follows each call
+		for _, rb := range a.Parent().Blocks {
+			if _, isRet := rb.Instrs[len(rb.Instrs)-1].(*ssa.Return); isRet && !a.Dominates(rb) {
+				return false
+			}
+		}
+		sites := c.callSites(a.Parent())
+		if len(sites) != 1 {
+			return false
+		}
+		sb := sites[0].Block()
+		return sb != b && c.dom(sb, b, depth+1) || (sb == b)
+	}
+	return false
+}
+
+// lookThrough maps a value to the value it stands for across a new-helper boundary: a
+// parameter of a helper with a single call site is the argument; the (single) result of a
+// call to a helper with one return statement is the returned value.
+func (c *Ctx) lookThrough(v ssa.Value) (ssa.Value, bool) {
+	switch x := v.(type) {
+	case *ssa.Parameter:
+		fn := x.Parent()
+		if !c.IsNew(fn) {
+			return v, false
+		}
+		sites := c.callSites(fn)
+		if len(sites) != 1 {
+			return v, false
+		}
+		for i, p := range fn.Params {
+			if p == x && i < len(sites[0].Common().Args) {
+				return sites[0].Common().Args[i], true
+			}
+		}
+	case *ssa.Call:
+		if cal := x.Call.StaticCallee(); cal != nil && c.IsNew(cal) && cal.Signature.Results().Len() == 1 {
+			if rv := singleReturn(cal, 0); rv != nil {
+				return rv, true
+			}
+		}
+	case *ssa.Extract:
+		if call, ok := x.Tuple.(*ssa.Call); ok {
+			if cal := call.Call.StaticCallee(); cal != nil && c.IsNew(cal) {
+				if rv := singleReturn(cal, x.Index); rv != nil {
+					return rv, true
+				}
+			}
+		}
+	}
+	return v, false
+}
+
+func singleReturn(fn *ssa.Function, idx int) ssa.Value {
+	var rv ssa.Value
+	for _, b := range fn.Blocks {
+		if r, ok := b.Instrs[len(b.Instrs)-1].(*ssa.Return); ok && idx < len(r.Results) {
+			if rv != nil && rv != r.Results[idx] {
+				return nil
+			}
+			rv = r.Results[idx]
+		}
+	}
+	return rv
 }
